@@ -351,3 +351,51 @@ pub fn run_with_non_utf8_paths(ctx: &crate::report::Ctx, bin: &str, before: &[&s
     let _ = std::fs::remove_dir_all(&dir);
     (out, written)
 }
+
+
+/// A tool that cannot write its output (the device is full) must not report success.
+/// `args_with_output` already contains /dev/full as the output path (or is empty when the output
+/// goes to stdout, which is then connected to /dev/full). Some(true) = it failed as it should.
+pub fn fails_on_full_device(ctx: &crate::report::Ctx, bin: &str, args: &[&str], stdin: Option<&[u8]>, stdout_to_full: bool) -> Option<bool> {
+    use std::io::Write;
+    use std::process::{Command, Stdio};
+    let mut cmd = Command::new(ctx.bin(bin));
+    cmd.args(args).stderr(Stdio::null());
+    cmd.stdin(if stdin.is_some() { Stdio::piped() } else { Stdio::null() });
+    if stdout_to_full {
+        let full = std::fs::OpenOptions::new().write(true).open("/dev/full").ok()?;
+        cmd.stdout(Stdio::from(full));
+    } else {
+        cmd.stdout(Stdio::null());
+    }
+    let mut child = cmd.spawn().ok()?;
+    if let (Some(data), Some(mut si)) = (stdin, child.stdin.take()) {
+        let _ = si.write_all(data);
+    }
+    let start = std::time::Instant::now();
+    loop {
+        match child.try_wait() {
+            Ok(Some(s)) => return Some(!s.success()),
+            Ok(None) if start.elapsed().as_secs() > 60 => {
+                let _ = child.kill();
+                let _ = child.wait();
+                return None;
+            }
+            Ok(None) => std::thread::sleep(std::time::Duration::from_millis(5)),
+            Err(_) => return None,
+        }
+    }
+}
+
+
+/// The operand as it is HANDED OVER to the engine (which takes `Rc`s by value): every third time a
+/// private structural copy that the engine becomes the sole owner of, otherwise another handle to
+/// the caller's diagram.
+pub fn hand_over<S: rsbdd::BDDSymbol>(d: &Rc<BDD<S>>, k: u64) -> Rc<BDD<S>> {
+    // (k is usually a running counter: scramble it so that the choice does not correlate with a loop)
+    if crate::util::mix(k, 0x4a11d) % 3 == 0 {
+        crate::conv::deep_copy(d)
+    } else {
+        Rc::clone(d)
+    }
+}
